@@ -671,8 +671,47 @@ class Inliner:
             T().visit(f.node)
             ast.fix_missing_locations(f.node)
 
+    def inline_properties(self):
+        """N1b: a NEW read-only property whose body is `return <expression over self>` is replaced, at every `self.<name>`
+        read inside its class, by that expression"""
+        for c in self.prog.classes.values():
+            for name, h in list(c.methods.items()):
+                if not h.is_property or h.qual in self.inv_funcs or name in c.setters:
+                    continue
+                body = self._body(h)
+                if len(body) != 1 or not isinstance(body[0], ast.Return) or body[0].value is None:
+                    continue
+                expr = body[0].value
+                if any(isinstance(n, (ast.Call, ast.Lambda, ast.Yield, ast.Await)) for n in ast.walk(expr)):
+                    continue
+                selfname = h.params[0] if h.params else "self"
+                for m in c.methods.values():
+                    if m is h:
+                        continue
+                    mself = m.params[0] if m.params else None
+                    if mself is None or m.is_staticmethod:
+                        continue
+                    # the receiver must be the method's own self, never re-bound
+                    if any(isinstance(n, ast.Name) and n.id == mself and isinstance(n.ctx, ast.Store) for n in ast.walk(m.node)):
+                        continue
+                    hit = [False]
+
+                    class T(ast.NodeTransformer):
+                        def visit_Attribute(s_, n):
+                            s_.generic_visit(n)
+                            if isinstance(n.ctx, ast.Load) and n.attr == name and isinstance(n.value, ast.Name) and n.value.id == mself:
+                                hit[0] = True
+                                return ast.copy_location(_Subst({selfname: ast.Name(id=mself, ctx=ast.Load())}, {}).visit(copy.deepcopy(expr)), n)
+                            return n
+
+                    T().visit(m.node)
+                    if hit[0]:
+                        ast.fix_missing_locations(m.node)
+                        self.inlined.append((m.qual, h.qual))
+
     def run(self):
         self.propagate_constants()
+        self.inline_properties()
         for _ in range(MAX_ROUNDS):
             changed = False
             for q, f in list(self.prog.functions.items()):
